@@ -94,7 +94,7 @@ Ltac dcl_R :=
 Ltac fin_R RF :=
   repeat (progress (
     try match goal with H : ci_kind ?c = _ |- _ => rewrite (hci_kind _ c _ H) in * end;
-    cbn [hmops hmop hkind hopt henv hfrs hstate hq hslab hnotopt snd fst f_loc ti_ci ci_kind ci_uid ci_caps ci_sq] in *;
+    cbn [hmops hmop hkind rkb hopt henv hfrs hstate hq hslab hnotopt snd fst f_loc ti_ci ci_kind ci_uid ci_caps ci_sq] in *;
     rewrite ?hmops_app, ?hmops_drops, ?hmops_slab_drops, ?hmops_runitems, ?hmops_dropitems, ?hci_unq, ?hci_setq, ?hci_as_call,
             ?henv_app, ?hq_app, ?hv_ret, ?hret_eq, ?hrk_clos, ?hrk_to, ?hrk_someto, ?hrk_slab, ?hrk_notify,
             ?hci_eq, ?hcc_eq, ?hv_own, ?hv_act, ?hv_anon, ?hv_fwd, ?hv_tok,
@@ -199,7 +199,7 @@ Proof.
     intros Q; inversion Q; subst pre s'; clear Q.
     destruct (inst_nocaps_H x _ _ _ _ _ I) as (IC & IH & IK). pose proof (ctr_inst_nocaps x _ _ _ _ _ I) as CI.
     rewrite H_submit by discriminate. rewrite H_target_ev, ctr_submit, ctr_target_ev, IH, CI, H_ref_clone', ctr_ref_clone.
-    rewrite (hci_kind x ci _ IK), IC. cbn [hkind hmops].
+    rewrite (hci_kind x ci _ IK), IC. cbn [hkind rkb hmops].
     pose proof (dcl_facts x s a R0) as DF. pose proof (hind_range x (HR a)). set (d := dcl x s a) in *. clearbody d.
     pose proof (hfw_le x s f _ F) as FL. cbn [hfw] in FL. assert (T : (0 <? rc) = true) by (apply Z.ltb_lt; lia). rewrite T in FL.
     unfold MX in *. lia.
